@@ -541,6 +541,9 @@ def build_inputs(ctx, n_fuzz):
     inputs += gen_fuzz.keyword_position_cases()
     # seed-independent: diagnostics whose notes point into an imported file or the prelude
     inputs += gen_fuzz.cross_file_cases()
+    # seed-independent: static references x forms x positions; attribute names x back ends x values x scopes
+    inputs += gen_fuzz.static_reference_cases()
+    inputs += gen_fuzz.attribute_cases()
     n_corpus = len(inputs)
     seen = set()
     while len(inputs) < n_fuzz + n_corpus:
